@@ -4,7 +4,9 @@ _s = importlib.util.spec_from_file_location("rc", os.path.join(VERIF, "props", "
 
 def harnesses(tier, findings):
     masks = [0xF7, 0xAB, 0x00, 0x02, 0x13] if tier == "quick" else [0xF7, 0xAB, 0x00, 0x02, 0x13, 0xB3, 0xFF, 0x37, 0x22, 0xA3, 0x1B]
+    ofm = [0x38, 0x04, 0x2e, 0x19] if tier == "quick" else [0x38, 0x04, 0x2e, 0x19, 0x0c, 0x3d, 0x27, 0x1a, 0x08, 0x3f]
     hs = [rc.api(H, VERIF, 2, 1, 2, 3, 900, name="api_lifecycle_m%02x" % m, excludes=["P2MASK=%d" % m]) for m in masks] + [
+          ] + [rc.api(H, VERIF, 4, 1, 1, 3, 900, name="api_open_fault_on_switch_m%02x" % m, excludes=["OFM=%d" % m]) for m in ofm] + [
           rc.inst(H, VERIF, 2, 2, 1, 0, 1), rc.inst(H, VERIF, 2, 2, 0, 1, 0),
           rc.start_flags(H, VERIF, 1), rc.start_flags(H, VERIF, 2),
           rc.source_unit(H, VERIF, 0, 2, 1, envmax=6)]  # worker keeps is_running until its last device call
